@@ -165,3 +165,11 @@ def run(ctx):
     ctx.guard(rule_r2)
     ctx.guard(rule_r3)
     ctx.guard(rule_r4)
+    from . import c03, c18
+    ctx.guard(c03.rule_o7)
+    ctx.guard(c18.rule_r8)
+    for rr in ctx.rules:
+        if rr.id == "C03.O7":
+            rr.id = "C06.R5"
+        if rr.id == "C18.R8":
+            rr.id = "C06.R6"
